@@ -146,23 +146,16 @@ def check(run):
     if "harness" in fails:
         broken.append("harness conn does not build against /repo: " + fails["harness"].strip()[-600:])
 
-    # ---- sockets first (they do not need coq), proofs in parallel
+    # ---- sockets first (they do not need coq); the model is built before the proofs so that the correspondence run
+    #      (coqc on generated files, no lock needed once model/Conn.vo is up to date) overlaps with the proof check
     pool = concurrent.futures.ThreadPoolExecutor(max_workers=max(2, min(8, vlib.NCPU)))
     hfut = None
     if "harness" not in fails:
         hfut = pool.submit(vlib.harness, AREA, [run.tier], run.seed, 3000 if run.tier == "thorough" else 600)
     with vlib.Lock():
-        pr = vlib.coq_prop("C15")
-    run.add_proof(pr)
-    if not pr["ok"]:
-        broken.append("props/C15.v or a dependency no longer checks: %s %s" % (pr["failed_at"], pr["errors"]))
-    run.coverage["trusted_base"] += [
-        "coq/model/Conn.v: hand model of client/client.go and client/server.go framing, faithful as far as the correspondence run compares it",
-        "NOT modelled, exercised only: TCP, partial reads, deadlines, goroutine hand-off (channels incoming/outgoing, in-flight handler), SendRaw",
-        "hypotheses of C15_modern_delivery_frames / C15_legacy_delivery_frames: per-message round trip and length laws (C01/C03), message "
-        "normalisation keeps READY/AUTHENTICATE/STARTUP/ERROR kinds; with LZ4: SegmentProofs.comp_contract (C08) on every payload",
-        "third-party compressors pierrec/lz4 and golang/snappy (known finding lz4-offset-65536 of C08: payload generators keep away from it)",
-    ]
+        model_ok, mlog = vlib.coq_make(["model/Conn.vo", "model/Hex.vo"])
+    if not model_ok:
+        broken.append("model/Conn.v does not build: " + mlog[-500:])
 
     findings = []       # failing inputs on the implementation
     results = []
@@ -194,7 +187,7 @@ def check(run):
     nontrivial = set()
     dist = {}
     samples = []
-    observations = {"startup_response_compressed": 0, "oversize_send_refused": None}
+    observations = {"startup_response_compressed": 0, "oversize_send_refused": None, "lowercase_compression_name_answered": None}
     corr = []
     for d in results:
         r, rep = d["result"], d["replay"]
@@ -206,6 +199,8 @@ def check(run):
             nontrivial.add((r["mode"], r["version"], r["compression"], r["auth"], cls, r["id"].split("-")[-1] if cls else ""))
         if r["obs"].get("startup_response_compressed"):
             observations["startup_response_compressed"] += 1
+        if r["mode"] == "lowercase":
+            observations["lowercase_compression_name_answered"] = r["obs"].get("startup_answered")
         if r["mode"] == "oversize":
             refused = (not r["obs"].get("delivered")) and bool(r["obs"].get("client_closed"))
             observations["oversize_send_refused"] = refused
@@ -223,19 +218,37 @@ def check(run):
         if len(samples) < 4 and r["mode"] in ("rawclient", "rawserver") and r["segments"] > 2:
             samples.append({"session": r["id"], "script": rep, "frames": r["frames"], "segments": r["segments"], "max_envelope": r["max_envelope"]})
 
-    # ---- correspondence: the same scripts through the model (vm_compute inside coqc), sharded
+    # ---- correspondence: the same scripts through the model (vm_compute inside coqc), sharded; runs while the proofs are checked
     compared = 0
-    if corr and pr["ok"]:
+    texts, futs = [], []
+    if corr and model_ok:
         shards = [[] for _ in range(min(8, vlib.NCPU, len(corr)))]
         weights = [0] * len(shards)
         for i, (sid, c, rep) in sorted(enumerate(corr), key=lambda x: -sum(e["len"] for e in x[1][1]["envs"])):
             k = weights.index(min(weights))
             shards[k].append((i, c))
             weights[k] += sum(e["len"] for e in c["envs"]) + sum(e["len"] for e in (c.get("tx_frames") or []))
-        texts = []
         for k, sh in enumerate(shards):
             texts.append(("Cases_C15_%d" % k, HEADER + "".join(case_text("c%d" % i, c) for i, c in sh)))
-        futs = [pool.submit(vlib.coq_eval, n, t, 1500) for n, t in texts]
+        futs = [pool.submit(vlib.coq_eval, n, t, 2400) for n, t in texts]
+    elif corr:
+        broken.append("correspondence not run: the model does not build")
+
+    # ---- proofs
+    with vlib.Lock():
+        pr = vlib.coq_prop("C15")
+    run.add_proof(pr)
+    if not pr["ok"]:
+        broken.append("props/C15.v or a dependency no longer checks: %s %s" % (pr["failed_at"], pr["errors"]))
+    run.coverage["trusted_base"] += [
+        "coq/model/Conn.v: hand model of client/client.go and client/server.go framing, faithful as far as the correspondence run compares it",
+        "NOT modelled, exercised only: TCP, partial reads, deadlines, goroutine hand-off (channels incoming/outgoing, in-flight handler), SendRaw",
+        "hypotheses of C15_modern_delivery_frames / C15_legacy_delivery_frames: per-message round trip and length laws (C01/C03), message "
+        "normalisation keeps READY/AUTHENTICATE/STARTUP/ERROR kinds; with LZ4: SegmentProofs.comp_contract (C08) on every payload",
+        "third-party compressors pierrec/lz4 and golang/snappy (known finding lz4-offset-65536 of C08: payload generators keep away from it)",
+    ]
+
+    if futs:
         values = {}
         for (n, t), fu in zip(texts, futs):
             rc, out = fu.result()
@@ -249,8 +262,6 @@ def check(run):
                 broken.append("correspondence: session %s: %s" % (sid, b))
                 if c["conforming"]:
                     findings.append({"kind": "correspondence", "class": "model-code-disagreement", "what": "%s: %s" % (sid, b), "replay": rep})
-    elif corr:
-        broken.append("correspondence not run: the development does not build")
 
     run.coverage["evaluations"] = evaluations
     run.coverage["distinct_nontrivial"] = len(nontrivial)
